@@ -64,6 +64,35 @@ func runC06(c *Ctx, idx int) {
 			s.Modules[0].TraitId = 1 + r.Intn(len(s.Traits))
 		}
 		f = newFamilyFrom(buildFromSnap(s), "file:"+modularGenomeFile+"+variants", o)
+	} else if idx%16 == 5 {
+		// trait ids that are unique but neither consecutive nor ascending (1,3,2 / 4,9,7): duplication resolves traits by id.
+		// Such a genome is only duplicated and mutated here, never mated (the crossovers index traits by position).
+		sp := genSpec(r)
+		sp.Traits = 3 + r.Intn(2)
+		sg := snapGenome(buildGenome(r, sp, 1))
+		perm := map[int]int{}
+		ids := r.Perm(len(sg.Traits) * 3)
+		for i := range sg.Traits {
+			perm[sg.Traits[i].Id] = 1 + ids[i]
+			sg.Traits[i].Id = 1 + ids[i]
+		}
+		for i := range sg.Nodes {
+			if sg.Nodes[i].TraitId != 0 {
+				sg.Nodes[i].TraitId = perm[sg.Nodes[i].TraitId]
+			}
+		}
+		for i := range sg.Genes {
+			if sg.Genes[i].TraitId != 0 {
+				sg.Genes[i].TraitId = perm[sg.Genes[i].TraitId]
+			}
+		}
+		f = newFamilyFrom(buildFromSnap(sg), "built: trait ids not consecutive", o)
+		modular = true // (keeps the crossovers and the growth by operator histories away from it)
+		c.Count("families.trait_ids_not_consecutive", 1)
+	} else if idx%64 == 9 {
+		f = newFamilyFrom(buildFromSnap(largeGenomeSnap(r)), "built: >500 nodes", o)
+		modular = true
+		c.Count("families.large_genome", 1)
 	} else {
 		f = newFamily(r, o)
 		f.grow(r, 40+r.Intn(120))
